@@ -167,11 +167,12 @@ example : ∃ g, (buildFS c11NvFiles).files[2]? = some g ∧ 4 ≤ g.len ∧ g.p
 
 /-- the facts the model takes from the source (regenerated on every run) -/
 theorem c11_facts :
-    Facts.fileSetFirstPos = 1 ∧ Facts.fileSetGap = 1 ∧ Facts.newFileOffset = 1 ∧
-    Facts.newFileData = "bytes.Replace(data,[]byte(\"\\r\\n\"),[]byte(\"\\n\"),-1)" :=
-  ⟨by decide, by decide, by decide, rfl⟩
+    Facts.fileSetFirstPos = 1 ∧ Facts.fileSetGap = 1 ∧ Facts.newFileOffset = 1 :=
+  ⟨by decide, by decide, by decide⟩
 
-/- (the texts of File.Position / setLines / Pos and of FileSet.AddFile / Position, formerly pinned here, are subsumed: the functions
+/- (the text of NewFile's CRLF normalisation, `Facts.newFileData`, formerly pinned here, is subsumed: `text.NewFile` is translated from
+   the source on every run and proved to build the model's `newFile` / `normCRLF` - `c11p_newFile` in Props/C11P.lean)
+   (the texts of File.Position / setLines / Pos and of FileSet.AddFile / Position, formerly pinned here, are subsumed: the functions
    are translated from the source on every run and proved equal to the model - Props/C11P.lean, Props/C10P.lean, built by this
    property's check) -/
 
